@@ -185,6 +185,11 @@ def sink_pair(rng):
 
 def plan(tier, rng, sl, nslices, stats):
     cfg = TIERS[tier]
+    # scale cases: alphabets of more than 64 symbols (every worker), hundreds of classes (one worker)
+    for mk in [gfa.many_symbols_case] * 40 + ([gfa.many_classes_case] if sl == 0 else []):
+        a = mk(rng)
+        a.pop("long_words", None)
+        yield {"pair": [a, gfa.derive_equal(rng, a) if rng.random() < 0.6 else gfa.derive_near(rng, a)]}
     for i in range(cfg["random"]):
         r = rng.random()
         if i % 8 == 5:
